@@ -140,8 +140,18 @@ pub fn run(rep: &mut Report, tier: &str, seed: u64) {
         let subject = gen_subject(&mut r);
         let nested = r.chance(1, 4);
         let regexes: Vec<Regex> = actual.iter().map(|a| Regex::new(a).unwrap()).collect();
+        // arms with an EMPTY block take part in the selection like any other arm (and consume their match); they leave no record
+        let mut empty: Vec<bool> = (0..esc.len()).map(|_| r.chance(1, 5)).collect();
+        if empty.iter().all(|e| *e) {
+            empty[0] = false;
+        }
         let mut text = format!("(module) @m {{\n  let _u = @m\n  node root\n  scan \"{}\" {{\n", subject);
         for (k, e) in esc.iter().enumerate() {
+            if empty[k] {
+                rep.count("arm-with-empty-block");
+                text.push_str(&format!("    \"{}\" {{ }}\n", e));
+                continue;
+            }
             let groups = regexes[k].captures_len();
             let attrs: Vec<String> = (0..groups).map(|g| format!("g{} = ${}", g, g)).collect();
             // the bindings of $k hold in the WHOLE arm block: also inside the blocks nested in it
@@ -164,7 +174,7 @@ pub fn run(rep: &mut Report, tier: &str, seed: u64) {
             text.push_str("    }\n");
         }
         text.push_str("  }\n}\n");
-        let key = format!("{:?} {:?} {}", actual, subject, nested);
+        let key = format!("{:?} {:?} {} {:?}", actual, subject, nested, empty);
         let nullable = regexes.iter().any(|re| re.captures("").is_some());
         let file = match load(&text) {
             Ok(Ok(f)) => {
@@ -196,7 +206,7 @@ pub fn run(rep: &mut Report, tier: &str, seed: u64) {
         runner.table = crate::oracle::OracleTable::new();
         runner.table.arm_sets = crate::astx::scan_arm_sets(&loaded.file);
         let case = Case { tsg: &text, loaded: &loaded, source: &source, info: &info, mi: &mi };
-        let expect = reference(&regexes, &subject);
+        let expect = reference(&regexes, &subject).map(|tr| tr.into_iter().filter(|(k, _)| !empty[*k]).collect::<Vec<_>>());
         let competing = {
             // were there iterations with >= 2 matching arms?
             let mut i = 0;
